@@ -17,6 +17,7 @@ creation order), the labelling the harness applies to the captured model.
 import ErdosVerif.Driver.Util
 import ErdosVerif.Model.Tetri
 import ErdosVerif.Model.TetriSpec
+import ErdosVerif.Driver.MipTetriBatch
 namespace ErdosVerif.Driver.MipTetri
 open Lean ErdosVerif.Driver ErdosVerif.Mip ErdosVerif.Tetri
 
@@ -161,6 +162,14 @@ def handleE (j : Json) : Except String Json := do
        ("addable", jList (jCell I) (TetriSpec.addable I (TetriSpec.planOf I σ)))]
   return Json.mkObj (fixed ++ base ++ withSigma)
 
-def handle (j : Json) : Json := guardE (handleE j)
+/-- Batching mode of the CPLEX scheduler (`inst.batching = true`) has a model of its own
+(`Model/TetriBatch.lean`). -/
+def isBatching (j : Json) : Bool :=
+  match j.getObjVal? "inst" >>= (·.getObjVal? "batching") >>= Json.getBool? with
+  | .ok b => b
+  | .error _ => false
+
+def handle (j : Json) : Json :=
+  if isBatching j then MipTetriBatch.handle j else guardE (handleE j)
 
 end ErdosVerif.Driver.MipTetri
